@@ -2994,6 +2994,9 @@ def _reorder_var(
     n = len(bdd.vars) - 1
     if n < 0:
         raise AssertionError(n)
+    if n == 0:
+        # a single variable stays where it is
+        return 0
     start = 0
     end = n
     level = bdd.level_of_var(var)
